@@ -476,9 +476,12 @@ def run(ctx):
                        k=getattr(srp, "CLIENT_K_VALUE", None), hgroup=getattr(srp, "H_GROUP", None),
                        keylen=getattr(srp, "HK_KEY_LENGTH", None))
     ref_consts = dict(N=R.N, g=R.G, k=R.K_MULT, hgroup=R.H_GROUP, keylen=R.NLEN)
-    inst = srp.SrpClient(USER, "000-00-000")
+    try:
+        inst = srp.SrpClient(USER, "000-00-000")
+    except Exception:  # noqa  (a client that cannot even be constructed is reported by the exchange stream)
+        inst = None
     inst_consts = dict(N=getattr(inst, "n", None), g=getattr(inst, "g", None),
-                       k=inst._calculate_k() if hasattr(inst, "_calculate_k") else getattr(inst, "k", None),
+                       k=(inst._calculate_k() if hasattr(inst, "_calculate_k") else getattr(inst, "k", None)) if inst is not None else None,
                        hgroup=getattr(inst, "hGroup", None), keylen=None)
     for name in ("N", "g", "k", "hgroup", "keylen"):
         vals = dict(model=model_consts[name], reference=ref_consts[name])
